@@ -116,17 +116,25 @@ pub struct MLibT {
 fn even(src: &mut Src, lo: i64, hi: i64) -> i64 {
     2 * src.i64_in(lo / 2, hi / 2)
 }
+/// track widths: even three times in four, any whole number otherwise (a rectangle is exactly as wide as its track)
+fn width(src: &mut Src, lo: i64, hi: i64) -> i64 {
+    if src.prob(1, 4) {
+        src.i64_in(lo, hi)
+    } else {
+        even(src, lo, hi)
+    }
+}
 fn gen_metal(src: &mut Src, horiz: bool, pp: i64, allow_asym_flip: bool) -> MMetal {
     let flip = src.prob(1, 3);
     let rails = src.bool();
-    let rail_w = even(src, 8, 40);
+    let rail_w = width(src, 8, 40);
     // a layer may carry nothing but rails (a power-strap layer): no signal track at all
     let nsig = if rails && src.prob(1, 8) { 0 } else { src.usize_in(1, 4) };
     // signals and gaps
     let mut body: Vec<(TT, i64)> = vec![];
     for _ in 0..nsig {
         body.push((TT::Gap, even(src, 4, 30)));
-        body.push((TT::Sig, even(src, 4, 24)));
+        body.push((TT::Sig, width(src, 4, 24)));
     }
     body.push((TT::Gap, even(src, 4, 30)));
     if flip && !allow_asym_flip {
@@ -894,7 +902,7 @@ fn asym_case(src: &mut Src, ctx: &mut Ctx) -> Result<(), String> {
 }
 fn run(run: &mut Run) {
     run.rule("Stack family: 1-4 metal layers alternating direction (either first), entry patterns of optional ground/power rails, 1-4 signals (none at all on one railed layer in eight) and gaps with even widths, written flat or with Repeat groups, offset in {0, -rail/2, small}, overlap in {0, rail width}, with and without every-other-period flipping (palindromic and, in a second sub-check, asymmetric width patterns; tracks numbered in the order their period lists them), layer pitch 1-3 primitive pitches; vias between adjacent metals. Cells: rectangular outlines that are whole periods of every used layer (1 in 12 deliberately not: error required), cuts and assignments at in-range crossings kept clear of each other and of instances with one net per track, leaf-cell instances in all four reflections aligned to whole periods. Oracle (R-tracks): per layer and track, wire pieces + requested cuts + true instance extents tile [0, span]; one via per assignment centred on the crossing; nets on exactly the covering pieces; rails VDD/VSS. Non-trivial = a cut and an assignment and >= 2 metal layers; distinct by hash.");
-    run.assume("non-rectangular outlines, odd widths/cut/via sizes, instances not aligned to whole periods are not generated; abstract edge ports only in the compile-edge-ports sub-check (outcome: error or one rectangle per port)");
+    run.assume("non-rectangular outlines, odd gap/cut/via sizes (track widths are odd one time in four), instances not aligned to whole periods are not generated; abstract edge ports only in the compile-edge-ports sub-check (outcome: error or one rectangle per port)");
     run.min_nontrivial = 100;
     let n = literal_libs().len() as u32 + 1;
     run.literals("literals", &(0..n).map(|i| vec![0, i]).collect::<Vec<_>>(), &literal_case);
